@@ -3,30 +3,33 @@
 // C08 harness: ACL decisions follow rule semantics and depend only on the token's own policies.
 //
 // Three streams, all against the REAL code:
-//   auth     generated policy sets are rendered as rule source text (HCL, HCL with mixed-case level
-//            strings, JSON), parsed by acl.NewPolicyFromSource, compiled by
-//            acl.NewPolicyAuthorizer / NewPolicyAuthorizerWithDefaults, and every Authorizer method is
-//            asked for every name of a colliding name universe.
-//   compile  sequences of structs.ACLPolicies.Compile calls through ONE shared structs.ACLCaches while
-//            policies are updated (ModifyIndex bumped), deleted and shared between the compiled sets.
-//   resolve  sequences of consul.ACLResolver.ResolveToken calls through ONE resolver (shared caches)
-//            for tokens that share policies, roles, service and node identities, in server mode
-//            (everything resolves locally) and in client mode (identities, policies and roles are
-//            fetched by RPC with zero TTL, so policies arrive in Go map order).
+//
+//	auth     generated policy sets are rendered as rule source text (HCL, HCL with mixed-case level
+//	         strings, JSON), parsed by acl.NewPolicyFromSource, compiled by
+//	         acl.NewPolicyAuthorizer / NewPolicyAuthorizerWithDefaults, and every Authorizer method is
+//	         asked for every name of a colliding name universe.
+//	compile  sequences of structs.ACLPolicies.Compile calls through ONE shared structs.ACLCaches while
+//	         policies are updated (ModifyIndex bumped), deleted and shared between the compiled sets.
+//	resolve  sequences of consul.ACLResolver.ResolveToken calls through ONE resolver (shared caches)
+//	         for tokens that share policies, roles, service and node identities, in server mode
+//	         (everything resolves locally) and in client mode (identities, policies and roles are
+//	         fetched by RPC with zero TTL, so policies arrive in Go map order).
+//
 // One line per operation goes to the Lean model (CV.Acl / CV.Engine.C08) together with the
 // implementation's canonical answer: the vector of all decisions.
 //
 // Monitors (Go only, independent of the Lean model):
-//   semantics:*   every decision equals an independent restatement of the documented semantics on the
-//                 generated rule structure: exact rule wins, else longest matching prefix rule; across
-//                 policies deny > write > list > read; no applicable rule => the default policy
-//   merge:*       the decision vector is identical for every order of the policies; mixed-case level
-//                 strings behave like their lower-case form (signatures merge:noncanonical-case:*)
-//   prefix:*      KeyWritePrefix / ServiceReadPrefix / NodeReadAll / ServiceReadAll = Allow imply the
-//                 per-name decision for every name of the universe under the prefix; ServiceWriteAny
-//                 is implied by any allowed ServiceWrite
-//   cache:*       a decision vector obtained through shared caches equals the one obtained with fresh
-//                 caches and freshly parsed policies (Compile) / a fresh resolver (ResolveToken)
+//
+//	semantics:*   every decision equals an independent restatement of the documented semantics on the
+//	              generated rule structure: exact rule wins, else longest matching prefix rule; across
+//	              policies deny > write > list > read; no applicable rule => the default policy
+//	merge:*       the decision vector is identical for every order of the policies; mixed-case level
+//	              strings behave like their lower-case form (signatures merge:noncanonical-case:*)
+//	prefix:*      KeyWritePrefix / ServiceReadPrefix / NodeReadAll / ServiceReadAll = Allow imply the
+//	              per-name decision for every name of the universe under the prefix; ServiceWriteAny
+//	              is implied by any allowed ServiceWrite
+//	cache:*       a decision vector obtained through shared caches equals the one obtained with fresh
+//	              caches and freshly parsed policies (Compile) / a fresh resolver (ResolveToken)
 package main
 
 import (
@@ -688,6 +691,41 @@ func checkSemantics(ps []policy, names []string, pd, cd decisions, dflt byte) []
 	return out
 }
 
+// checkEnforce: acl.Enforce (resource / access-string dispatch) must agree with the direct method.
+func checkEnforce(z acl.Authorizer, n string, row []acl.EnforcementDecision, nl []acl.EnforcementDecision) []violation {
+	type e struct {
+		rsc    acl.Resource
+		access string
+		want   acl.EnforcementDecision
+	}
+	var out []violation
+	for _, c := range []e{
+		{acl.ResourceACL, "read", nl[0]}, {acl.ResourceACL, "Write", nl[1]},
+		{acl.ResourceAgent, "read", row[iAgentRead]}, {acl.ResourceAgent, "write", row[iAgentWrite]},
+		{acl.ResourceEvent, "READ", row[iEventRead]}, {acl.ResourceEvent, "write", row[iEventWrite]},
+		{acl.ResourceIntention, "read", row[iIntentionRead]}, {acl.ResourceIntention, "write", row[iIntentionWrite]},
+		{acl.ResourceKey, "read", row[iKeyRead]}, {acl.ResourceKey, "list", row[iKeyList]}, {acl.ResourceKey, "write", row[iKeyWrite]},
+		{acl.ResourceKey, "write-prefix", row[iKeyWritePrefix]},
+		{acl.ResourceKeyring, "read", nl[4]}, {acl.ResourceKeyring, "write", nl[5]},
+		{acl.ResourceMesh, "read", nl[6]}, {acl.ResourceMesh, "write", nl[7]},
+		{acl.ResourcePeering, "read", nl[8]}, {acl.ResourcePeering, "write", nl[9]},
+		{acl.ResourceOperator, "read", nl[10]}, {acl.ResourceOperator, "write", nl[11]},
+		{acl.ResourceNode, "read", row[iNodeRead]}, {acl.ResourceNode, "write", row[iNodeWrite]},
+		{acl.ResourceQuery, "read", row[iQueryRead]}, {acl.ResourceQuery, "write", row[iQueryWrite]},
+		{acl.ResourceService, "read", row[iServiceRead]}, {acl.ResourceService, "write", row[iServiceWrite]},
+		{acl.ResourceSession, "read", row[iSessionRead]}, {acl.ResourceSession, "write", row[iSessionWrite]},
+	} {
+		got, err := acl.Enforce(z, c.rsc, n, c.access, nil)
+		if err != nil || got != c.want {
+			out = append(out, violation{"semantics:enforce-dispatch:" + string(c.rsc), fmt.Sprintf("Enforce(%s, %q, %s) = %v, %v; the method answers %v", c.rsc, n, c.access, got, err, c.want)})
+		}
+	}
+	if _, err := acl.Enforce(z, acl.ResourceService, n, "list", nil); err == nil {
+		out = append(out, violation{"semantics:enforce-dispatch:invalid-access-accepted", "Enforce(service, list) did not fail"})
+	}
+	return out
+}
+
 // checkPrefixQueries: the prefix/all answers must be sound with respect to the per-name answers.
 func checkPrefixQueries(names []string, cd decisions) []violation {
 	var out []violation
@@ -779,6 +817,8 @@ func authCase(run *hx.Run, r *hx.RNG, exhaustive *[]policy) {
 	o := genOpts{names: ruleNames, kinds: kinds}
 	mode := r.Intn(100)
 	switch {
+	case exhaustive != nil:
+		run.Tag("auth:gen:exhaustive-small-scope")
 	case mode < 20:
 		o.mixed = true
 		run.Tag("auth:gen:mixed-case")
@@ -851,6 +891,9 @@ func authCase(run *hx.Run, r *hx.RNG, exhaustive *[]policy) {
 	var vs []violation
 	vs = append(vs, checkSemantics(ps, names, pd, cd, dflt)...)
 	vs = append(vs, checkPrefixQueries(names, cd)...)
+	if ei := r.Intn(len(names)); true {
+		vs = append(vs, checkEnforce(cz, names[ei], cd.named[ei], cd.nameless)...)
+	}
 	// order independence: every rotation / a shuffle of the policy list, and the rules inside a policy reversed
 	mixed := false
 	for _, p := range ps {
@@ -906,13 +949,55 @@ func authCase(run *hx.Run, r *hx.RNG, exhaustive *[]policy) {
 			}
 		}
 	}
-	seen := map[string]bool{}
-	for _, v := range vs {
-		if !seen[v.sig] {
-			seen[v.sig] = true
-			run.Violate(v.sig, v.desc, []string{op})
+	// a violation is attributed to mixed-case level strings only when the lower-cased form of the same
+	// policies does not show it (the mixed-case policies must behave exactly like their lower-case form)
+	caseRelated := false
+	if mixed {
+		lower := make([]policy, len(ps))
+		for i, p := range ps {
+			lower[i] = lowerCase(p)
+		}
+		if lp, err := parseAll(lower, syntax); err == nil {
+			if lz, err := acl.NewPolicyAuthorizer(lp, nil); err == nil {
+				if ld := decide(lz, names); ld.String() != pd.String() {
+					caseRelated = true
+					vs = append(vs, violation{"merge:noncanonical-case:differs-from-lower-case", fmt.Sprintf("mixed-case policies give %s, their lower-case form gives %s", pd, ld)})
+				}
+			}
 		}
 	}
+	seen := map[string]bool{}
+	for _, v := range vs {
+		sig := v.sig
+		if strings.HasPrefix(sig, "merge:noncanonical-case:") && !caseRelated {
+			sig = "semantics:" + strings.TrimPrefix(sig, "merge:noncanonical-case:")
+		}
+		if !seen[sig] {
+			seen[sig] = true
+			run.Violate(sig, v.desc, []string{op})
+		}
+	}
+}
+
+// plainSig: in the sequence streams a semantics violation is not attributed to letter case (the auth
+// stream does that, by comparison with the lower-cased policies).
+func plainSig(sig string) string {
+	if strings.HasPrefix(sig, "merge:noncanonical-case:") {
+		return "semantics:" + strings.TrimPrefix(sig, "merge:noncanonical-case:")
+	}
+	return sig
+}
+
+func lowerCase(p policy) policy {
+	q := policy{}
+	for i, s := range p.scalars {
+		q.scalars[i] = strings.ToLower(s)
+	}
+	for _, r := range p.rules {
+		r.pol, r.intent = strings.ToLower(r.pol), strings.ToLower(r.intent)
+		q.rules = append(q.rules, r)
+	}
+	return q
 }
 
 func tagShapes(run *hx.Run, ps []policy, names []string, pd decisions) {
@@ -956,14 +1041,15 @@ func tagShapes(run *hx.Run, ps []policy, names []string, pd decisions) {
 	}
 }
 
-// exhaustive small scope (thorough): up to 2 policies x up to 2 rules over 3 names x 3 levels x exact/prefix
+// exhaustive small scope (thorough): all pairs of policies with one rule each over 3 names x 4 levels x
+// exact/prefix (key rules, the only kind with `list`), complete; pairs involving two-rule policies sampled.
 func exhaustiveAuth(run *hx.Run) {
 	names := []string{"", "a", "ab"}
 	var rules []rule
 	for _, n := range names {
 		for _, pf := range []bool{false, true} {
-			for _, l := range levels {
-				rules = append(rules, rule{kind: 's', pfx: pf, name: n, pol: l})
+			for _, l := range []string{"deny", "read", "list", "write"} {
+				rules = append(rules, rule{kind: 'k', pfx: pf, name: n, pol: l})
 			}
 		}
 	}
@@ -971,19 +1057,23 @@ func exhaustiveAuth(run *hx.Run) {
 	pols = append(pols, policy{})
 	for i := range rules {
 		pols = append(pols, policy{rules: []rule{rules[i]}})
+	}
+	single := len(pols)
+	for i := range rules {
 		for j := i + 1; j < len(rules); j++ {
 			pols = append(pols, policy{rules: []rule{rules[i], rules[j]}})
 		}
 	}
 	r := run.RNG.Fork(0xE8)
-	n := 0
+	n, complete := 0, 0
 	for i := range pols {
 		for j := i; j < len(pols); j++ {
-			// every pair would be 15k cases x 3 seeds; take every pair of single-rule policies and a third of the rest
-			if len(pols[i].rules) > 1 || len(pols[j].rules) > 1 {
-				if (i*31+j)%3 != 0 {
+			if i >= single || j >= single {
+				if (i*31+j)%9 != 0 {
 					continue
 				}
+			} else {
+				complete++
 			}
 			ps := []policy{pols[i], pols[j]}
 			authCase(run, r.Fork(uint64(n)), &ps)
@@ -991,6 +1081,7 @@ func exhaustiveAuth(run *hx.Run) {
 		}
 	}
 	run.Extra["exhaustive_auth_cases"] = n
+	run.Extra["exhaustive_complete_scope"] = fmt.Sprintf("all %d unordered pairs of policies with at most one key rule each (3 names x exact/prefix x 4 levels)", complete)
 }
 
 // ---------------------------------------------------------------- streams 2 and 3: shared caches
@@ -1109,6 +1200,7 @@ type seq struct {
 	res    *consul.ACLResolver
 	caches *structs.ACLCaches
 	docs   map[string]policy // structure of the stored policies
+	badDoc map[string]bool   // policies whose rule text does not validate
 	modIdx map[string]uint64
 	kind   string
 	// RPC mode: ids that were missing when a token referring to them was resolved, and whether
@@ -1130,8 +1222,10 @@ func encDCs(dcs []string) string { return hx.EncSList(dcs) }
 
 func (s *seq) putPolicy(id string, o genOpts) {
 	p := genPolicy(s.r, o, 4)
+	bad := false
 	if s.r.Chance(4) {
 		s.run.Tag(s.kind + ":policy:malformed:" + spoil(s.r, &p))
+		bad = true
 	}
 	// the aliasing witness shape: service rules for the same few names in most policies
 	if s.r.Chance(60) {
@@ -1140,12 +1234,16 @@ func (s *seq) putPolicy(id string, o genOpts) {
 	tag := s.r.Intn(3)
 	dcs := hx.Pick(s.r, dcsPool)
 	s.modIdx[id] += 1 + uint64(s.r.Intn(2))
-	doc := &structs.ACLPolicy{ID: id, Name: fmt.Sprintf("p-%s-%d", id[len(id)-1:], tag), Rules: render(p, tag), Datacenters: dcs}
+	doc := &structs.ACLPolicy{ID: id, Name: fmt.Sprintf("p-%d", tag), Rules: render(p, tag), Datacenters: dcs}
 	doc.ModifyIndex = s.modIdx[id]
 	doc.CreateIndex = 1
 	doc.SetHash(true)
 	s.b.policies[id] = doc
 	s.docs[id] = p
+	if s.badDoc == nil {
+		s.badDoc = map[string]bool{}
+	}
+	s.badDoc[id] = bad
 	if s.negSeen[id] {
 		s.negRecreated = "policy"
 	}
@@ -1276,6 +1374,17 @@ func (s *seq) resolve(secret string) {
 		s.line(op, out)
 		s.run.Tag(s.kind + ":resolve:" + out)
 		s.run.Case(strings.Join(s.ops, "\n"), false)
+		if out == "err:compile" {
+			eff := secret
+			if eff == "" {
+				eff = "anonymous"
+			}
+			if tok, found := s.b.tokens[eff]; found && !(s.b.client && s.negRecreated != "") {
+				if _, wok := s.expectedPolicies(tok); wok {
+					s.violate("semantics:resolve:valid-policies-rejected", "all policies in scope validate, yet the token failed to compile: "+err.Error())
+				}
+			}
+		}
 		if (ferr == nil) != (err == nil) {
 			s.violate("cache:resolve-error-differs-from-fresh", fmt.Sprintf("shared resolver: %v, fresh resolver: %v", err, ferr))
 		}
@@ -1284,6 +1393,25 @@ func (s *seq) resolve(secret string) {
 	d := decide(res, names)
 	s.line(op, "c="+d.String())
 	s.run.Tag(s.kind + ":resolve:ok")
+	// the documented semantics on the token's own policies, roles and identities
+	effective := secret
+	if effective == "" {
+		effective = "anonymous"
+	}
+	stale := s.b.client && s.negRecreated != "" // known history shape, reported below with its own signature
+	if tok, found := s.b.tokens[effective]; found && !stale {
+		want, wok := s.expectedPolicies(tok)
+		s.run.Tag(fmt.Sprintf("%s:resolve:own-policies:%d", s.kind, len(want)))
+		if !wok {
+			s.violate("semantics:resolve:invalid-policy-accepted", "a token with an invalid policy in scope resolved without error")
+		} else if ch, isChain := res.Authorizer.(*acl.ChainedAuthorizer); isChain && len(ch.AuthorizerChain()) == 2 {
+			for _, v := range checkSemantics(want, names, decide(ch.AuthorizerChain()[0], names), d, s.dflt) {
+				s.violate(strings.Replace(plainSig(v.sig), "semantics:", "semantics:resolve:", 1), v.desc)
+			}
+		} else {
+			s.violate("semantics:resolve:unexpected-authorizer-shape", fmt.Sprintf("%T", res.Authorizer))
+		}
+	}
 	s.run.Case(strings.Join(s.ops, "\n"), d.nonDefault())
 	if ferr != nil {
 		s.violate("cache:resolve-error-differs-from-fresh", fmt.Sprintf("shared resolver succeeded, fresh resolver: %v", ferr))
@@ -1300,6 +1428,85 @@ func (s *seq) resolve(secret string) {
 	for _, v := range checkPrefixQueries(names, d) {
 		s.violate(v.sig, v.desc)
 	}
+}
+
+func inScope(dcs []string, dc string) bool {
+	if len(dcs) == 0 {
+		return true
+	}
+	for _, d := range dcs {
+		if d == dc {
+			return true
+		}
+	}
+	return false
+}
+
+// expectedPolicies restates resolvePoliciesForIdentity on the harness's own bookkeeping: the policies
+// linked by the token and by its roles, plus the synthetic policies of all service / node identities,
+// restricted to the local datacenter. ok=false: an in-scope policy does not validate.
+func (s *seq) expectedPolicies(t *structs.ACLToken) (out []policy, ok bool) {
+	ok = true
+	var pids []string
+	svcDCs := map[string][]string{}
+	var svcOrder []string
+	type nk struct{ n, dc string }
+	nodes := map[nk]bool{}
+	var nodeOrder []nk
+	addSvc := func(ids structs.ACLServiceIdentities) {
+		for _, id := range ids {
+			if _, seen := svcDCs[id.ServiceName]; !seen {
+				svcOrder = append(svcOrder, id.ServiceName)
+				svcDCs[id.ServiceName] = nil
+			}
+			svcDCs[id.ServiceName] = append(svcDCs[id.ServiceName], id.Datacenters...)
+		}
+	}
+	addNodes := func(ids structs.ACLNodeIdentities) {
+		for _, id := range ids {
+			k := nk{id.NodeName, id.Datacenter}
+			if !nodes[k] {
+				nodes[k] = true
+				nodeOrder = append(nodeOrder, k)
+			}
+		}
+	}
+	pids = append(pids, t.PolicyIDs()...)
+	addSvc(t.ServiceIdentities)
+	addNodes(t.NodeIdentities)
+	for _, rid := range t.RoleIDs() {
+		if ro, found := s.b.roles[rid]; found {
+			for _, l := range ro.Policies {
+				pids = append(pids, l.ID)
+			}
+			addSvc(ro.ServiceIdentities)
+			addNodes(ro.NodeIdentities)
+		}
+	}
+	seen := map[string]bool{}
+	for _, id := range pids {
+		doc, found := s.b.policies[id]
+		if seen[id] || !found || !inScope(doc.Datacenters, s.dc) {
+			continue
+		}
+		seen[id] = true
+		if s.badDoc[id] {
+			ok = false
+		}
+		out = append(out, s.docs[id])
+	}
+	for _, n := range svcOrder {
+		if inScope(svcDCs[n], s.dc) {
+			out = append(out, policy{rules: []rule{{kind: 's', name: n, pol: "write"}, {kind: 's', name: n + "-sidecar-proxy", pol: "write"},
+				{kind: 's', pfx: true, name: "", pol: "read"}, {kind: 'n', pfx: true, name: "", pol: "read"}}})
+		}
+	}
+	for _, k := range nodeOrder {
+		if k.dc == s.dc {
+			out = append(out, policy{rules: []rule{{kind: 'n', name: k.n, pol: "write"}, {kind: 's', pfx: true, name: "", pol: "read"}}})
+		}
+	}
+	return out, ok
 }
 
 // noteMissing records the policy / role ids the token refers to that do not exist right now.
@@ -1396,7 +1603,7 @@ func (s *seq) compile(ids []string) {
 	// and the documented semantics on the structure the harness generated
 	cz := acl.NewChainedAuthorizer([]acl.Authorizer{z, staticOf(s.dflt)})
 	for _, v := range checkSemantics(structure, names, d, decide(cz, names), s.dflt) {
-		s.violate(v.sig, v.desc)
+		s.violate(plainSig(v.sig), v.desc)
 	}
 }
 
@@ -1448,6 +1655,15 @@ func runSeq(run *hx.Run, r *hx.RNG, kind string) {
 		case c < 62:
 			if kind == "resolve" {
 				sec := hx.Pick(r, secrets)
+				if len(s.b.tokens) > 0 && r.Chance(85) {
+					var have []string
+					for _, x := range secrets {
+						if _, ok := s.b.tokens[x]; ok {
+							have = append(have, x)
+						}
+					}
+					sec = hx.Pick(r, have)
+				}
 				switch r.Intn(25) {
 				case 0:
 					sec = "allow"
@@ -1502,7 +1718,7 @@ func aliasWitness(run *hx.Run) {
 		s.line("reset d =dc1", "ok")
 		for i, lvl := range []string{"read", "write"} {
 			p := policy{rules: []rule{{kind: 's', pfx: pfx, name: "web", pol: lvl}}}
-			doc := &structs.ACLPolicy{ID: polIDs[i], Name: fmt.Sprintf("p-%d-0", i+1), Rules: render(p, 0)}
+			doc := &structs.ACLPolicy{ID: polIDs[i], Name: "p-0", Rules: render(p, 0)}
 			doc.ModifyIndex = 1
 			doc.SetHash(true)
 			s.b.policies[polIDs[i]] = doc
@@ -1524,6 +1740,51 @@ func aliasWitness(run *hx.Run) {
 	}
 }
 
+// negativeWitness replays the shape of the repaired negative-cache defect on every run (RPC mode):
+// a token links a policy (through a role: a role) that does not exist yet, is resolved, the policy
+// (role) is created, the token is resolved again.
+func negativeWitness(run *hx.Run) {
+	for _, viaRole := range []bool{false, true} {
+		s := &seq{run: run, r: run.RNG.Fork(0x4E6), kind: "resolve", dflt: 'a', dc: "dc1",
+			docs: map[string]policy{}, modIdx: map[string]uint64{}}
+		s.b = &backend{dc: s.dc, client: true, tokens: map[string]*structs.ACLToken{}, policies: map[string]*structs.ACLPolicy{}, roles: map[string]*structs.ACLRole{}}
+		s.res = newResolver(s.b, s.dflt, false)
+		s.line("reset a =dc1", "ok")
+		t := &structs.ACLToken{AccessorID: "acc-neg", SecretID: secrets[0]}
+		if viaRole {
+			t.Roles = []structs.ACLTokenRoleLink{{ID: roleIDs[0]}}
+			s.b.tokens[secrets[0]] = t
+			s.line(fmt.Sprintf("tok %s - %s - -", hx.EncS(secrets[0]), hx.EncS(roleIDs[0])), "ok")
+		} else {
+			t.Policies = []structs.ACLTokenPolicyLink{{ID: polIDs[0]}}
+			s.b.tokens[secrets[0]] = t
+			s.line(fmt.Sprintf("tok %s %s - - -", hx.EncS(secrets[0]), hx.EncS(polIDs[0])), "ok")
+		}
+		s.resolve(secrets[0])
+		p := policy{rules: []rule{{kind: 's', pfx: true, name: "", pol: "deny"}}}
+		p.scalars[1] = "deny"
+		doc := &structs.ACLPolicy{ID: polIDs[0], Name: "p-0", Rules: render(p, 0)}
+		doc.ModifyIndex = 1
+		doc.SetHash(true)
+		s.b.policies[polIDs[0]] = doc
+		s.docs[polIDs[0]] = p
+		s.badDoc = map[string]bool{}
+		if s.negSeen[polIDs[0]] {
+			s.negRecreated = "policy"
+		}
+		s.line(fmt.Sprintf("pol %s 1 0 - %s", hx.EncS(polIDs[0]), encPolicy(p)), "ok")
+		if viaRole {
+			s.b.roles[roleIDs[0]] = &structs.ACLRole{ID: roleIDs[0], Name: "r-1", Policies: []structs.ACLRolePolicyLink{{ID: polIDs[0]}}}
+			if s.negSeen[roleIDs[0]] {
+				s.negRecreated = "role"
+			}
+			s.line(fmt.Sprintf("role %s %s - -", hx.EncS(roleIDs[0]), hx.EncS(polIDs[0])), "ok")
+		}
+		s.resolve(secrets[0])
+		run.Tag("resolve:witness:negative-entry-then-created")
+	}
+}
+
 func main() {
 	run := hx.Start()
 	run.Rule = "auth: one case = (default policy, 0-4 generated policies rendered as HCL/JSON rule text, 6-10 names); " +
@@ -1531,11 +1792,12 @@ func main() {
 		"non-trivial = at least one decision of the policy authorizer is not Default"
 	start := time.Now()
 	aliasWitness(run)
-	nAuth := run.Scale(1500, 12000)
+	negativeWitness(run)
+	nAuth := run.Scale(1500, 30000)
 	for i := 0; i < nAuth; i++ {
 		authCase(run, run.RNG.Fork(uint64(i)), nil)
 	}
-	nSeq := run.Scale(150, 1200)
+	nSeq := run.Scale(150, 2500)
 	for i := 0; i < nSeq; i++ {
 		runSeq(run, run.RNG.Fork(uint64(1_000_000+i)), "compile")
 		runSeq(run, run.RNG.Fork(uint64(2_000_000+i)), "resolve")
